@@ -5,6 +5,7 @@ from __future__ import annotations
 import ast
 from typing import List, Optional
 
+from ..fieldflow import FuncFlow
 from ..index import AnalysisError
 from ..cfg import CFG, walk_no_nested, iter_stmts
 
@@ -635,6 +636,134 @@ def run(ctx, rep):
                 rep.ok("C16.11", cons, "the body changes what the condition reads" if changed else "explicit exit in the body", loc)
             else:
                 rep.violation("C16.11", cons, f"nothing the condition `{ast.unparse(st.test)}` depends on is assigned or mutated in the loop body, and the body has no explicit exit: if the condition holds once, the loop never ends (the sibling loops assign the resolved value back)", loc)
+
+    # ------------------------------------------------------------ C16.12
+    rep.rule("C16.12", "a computed step handed to range() is tested against zero first (range(a, b, 0) raises ValueError)", floor=1)
+    n12 = 0
+    for q in sorted(ea.reachable):
+        f = ix.functions[q]
+        if isinstance(f.node, ast.Lambda):
+            continue
+        for n in walk_no_nested(f.node):
+            if not (isinstance(n, ast.Call) and isinstance(n.func, ast.Name) and n.func.id == "range" and len(n.args) == 3):
+                continue
+            step = n.args[2]
+            cons = construct_of(f, f"range-step:{ast.unparse(step)[:30]}")
+            loc = f"{f.path}:{n.lineno}"
+            n12 += 1
+            if isinstance(step, ast.Constant) or (isinstance(step, ast.UnaryOp) and isinstance(step.operand, ast.Constant)):
+                v = step.value if isinstance(step, ast.Constant) else 1
+                if v == 0:
+                    rep.violation("C16.12", cons, "range() with a literal zero step", loc)
+                else:
+                    rep.ok("C16.12", cons, "literal non-zero step", loc)
+                continue
+            key = ast.unparse(step)
+            guard = None
+            for st in iter_stmts(f.body):
+                if isinstance(st, ast.If) and st.lineno < n.lineno and any(isinstance(x, ast.Raise) for x in st.body):
+                    for c in ast.walk(st.test):
+                        if isinstance(c, ast.Compare) and len(c.ops) == 1 and isinstance(c.ops[0], (ast.Eq, ast.LtE, ast.Lt)) :
+                            l, r = ast.unparse(c.left), ast.unparse(c.comparators[0])
+                            if (l == key and r == "0") or (r == key and l == "0"):
+                                guard = st
+                        if isinstance(c, ast.UnaryOp) and isinstance(c.op, ast.Not) and ast.unparse(c.operand) == key:
+                            guard = st
+            # the guard must still be valid: no re-assignment of the step between guard and use
+            if guard is not None and isinstance(step, ast.Name):
+                for st in iter_stmts(f.body):
+                    if isinstance(st, ast.Assign) and guard.lineno < st.lineno < n.lineno and any(isinstance(t, ast.Name) and t.id == step.id for t in st.targets):
+                        guard = None
+                        break
+            if guard is not None:
+                rep.ok("C16.12", cons, f"`{ast.unparse(guard.test)}` raises before the call", loc)
+            else:
+                rep.violation("C16.12", cons, f"`{ast.unparse(n)}`: the step is computed (it can be a let constant) and nothing rejects zero before the call: ValueError('range() arg 3 must not be zero') escapes instead of JaqalError", loc, witness="let z 0\nregister q[2]\nmap a q[0:2:z]\nfoo a[0]")
+    rep.analysed["range_step_sites"] = n12
+
+    # ------------------------------------------------------------ C16.13
+    rep.rule("C16.13", "a handler that swallows the failure of int()/float() on a program value covers every way the conversion fails (TypeError, ValueError, OverflowError)", floor=1)
+    NEED = {"TypeError", "ValueError", "OverflowError"}
+    COVER = {"Exception": NEED, "BaseException": NEED, "ArithmeticError": {"OverflowError"}, "TypeError": {"TypeError"}, "ValueError": {"ValueError"}, "OverflowError": {"OverflowError"}}
+    for q in sorted(ea.reachable):
+        f = ix.functions[q]
+        if isinstance(f.node, ast.Lambda):
+            continue
+        for tr_ in walk_no_nested(f.node):
+            if not isinstance(tr_, ast.Try):
+                continue
+            conv = [c for b in tr_.body for c in ast.walk(b) if isinstance(c, ast.Call) and isinstance(c.func, ast.Name) and c.func.id in ("int", "float") and c.args and not isinstance(c.args[0], ast.Constant)]
+            if not conv:
+                continue
+            names = set()
+            for h in tr_.handlers:
+                if h.type is None:
+                    names |= {"BaseException"}
+                else:
+                    ts = h.type.elts if isinstance(h.type, ast.Tuple) else [h.type]
+                    for t in ts:
+                        names.add(ast.unparse(t).split(".")[-1])
+            builtin_handled = names & set(COVER)
+            if not builtin_handled:
+                continue  # the try is about something else (e.g. JaqalError from a property); not a belief about the conversion
+            cons = construct_of(f, f"conversion-handler:{ast.unparse(conv[0])[:30]}")
+            covered = set()
+            for nm in builtin_handled:
+                covered |= COVER[nm]
+            missing = NEED - covered
+            loc = f"{f.path}:{tr_.lineno}"
+            if missing:
+                rep.violation("C16.13", cons, f"the handler ({', '.join(sorted(names))}) around `{ast.unparse(conv[0])}` expects the conversion to fail but does not cover {', '.join(sorted(missing))}: e.g. an out-of-range float literal (1.0e999 lexes as inf) makes int() raise OverflowError, which escapes the parser", loc, witness="let big 1.0e999")
+            else:
+                rep.ok("C16.13", cons, f"handlers cover all conversion failures ({', '.join(sorted(names))})", loc)
+
+    # ------------------------------------------------------------ C16.14
+    rep.rule("C16.14", "an object looked up by name in the builder's context can be any declared entity: class-specific attributes are read only after an isinstance test", floor=1)
+    ENTITY = ["jaqalpaq.core.register.Register", "jaqalpaq.core.register.NamedQubit", "jaqalpaq.core.constant.Constant", "jaqalpaq.core.parameter.Parameter"]
+    for c in ENTITY:
+        ix.cls(c)
+
+    def has_attr(cq, attr):
+        for k in ix.mro(cq):
+            ci = ix.classes.get(k)
+            if ci is None:
+                continue
+            if attr in ci.methods or attr in getattr(ci, "init_fields", ()) or attr in getattr(ci, "class_attrs", ()):
+                return True
+        return False
+    n14 = 0
+    for q in sorted(ea.reachable):
+        f = ix.functions[q]
+        if f.module != "jaqalpaq.core.circuitbuilder" or isinstance(f.node, ast.Lambda):
+            continue
+        looked = set()
+        for st in iter_stmts(f.body):
+            if isinstance(st, ast.Assign) and len(st.targets) == 1 and isinstance(st.targets[0], ast.Name):
+                v = st.value
+                if isinstance(v, ast.Subscript) and isinstance(v.value, ast.Name) and v.value.id == "context":
+                    looked.add(st.targets[0].id)
+                if isinstance(v, ast.Call) and isinstance(v.func, ast.Attribute) and v.func.attr == "get" and isinstance(v.func.value, ast.Name) and v.func.value.id == "context":
+                    looked.add(st.targets[0].id)
+        if not looked:
+            continue
+        fl = FuncFlow(ix, T, f)
+        for n in walk_no_nested(f.node):
+            if isinstance(n, ast.Attribute) and isinstance(n.ctx, ast.Load) and isinstance(n.value, ast.Name) and n.value.id in looked:
+                n14 += 1
+                missing = [c.split(".")[-1] for c in ENTITY if not has_attr(c, n.attr)]
+                cons = construct_of(f, f"context-entity:{n.value.id}.{n.attr}")
+                loc = f"{f.path}:{n.lineno}"
+                if not missing:
+                    rep.ok("C16.14", cons, "every declared entity has this attribute", loc)
+                    continue
+                guarded = any(
+                    isinstance(m, ast.Call) and isinstance(m.func, ast.Name) and m.func.id == "isinstance" and m.args and isinstance(m.args[0], ast.Name) and m.args[0].id == n.value.id
+                    for t in fl.control_tests(n) for m in ast.walk(t))
+                if guarded:
+                    rep.ok("C16.14", cons, "read under an isinstance test", loc)
+                else:
+                    rep.violation("C16.14", cons, f"`{n.value.id}` comes from a context lookup and may be a {'/'.join(missing)}, which has no `{n.attr}`: AttributeError escapes instead of JaqalError", loc, witness="register q[2]\nmap a q[0]\nmap b a[:]")
+    rep.analysed["context_entity_attribute_reads"] = n14
 
 
 KNOWN_SUBMODULES = {
